@@ -411,6 +411,8 @@ def gen_accelerated_proximal_point(rng):
         gammas = [g for _ in range(n)]
     else:
         gammas = [_pos(rng) for _ in range(n)]
+    if rng.random() < 0.3:
+        gammas = gammas + [_pos(rng) for _ in range(rng.randint(1, 2))]     # a longer schedule: n steps use its first n entries
     return {"A0": _pos(rng), "gammas": gammas, "n": n}
 
 
@@ -457,7 +459,9 @@ def gen_conditional_gradient_frank_wolfe(rng):
 
 def gen_douglas_rachford_splitting_contraction(rng):
     L = _L(rng)
-    return {"mu": _kappa(rng) * L, "L": L, "alpha": _logu(rng, 0.05, 20.0) / L, "theta": 1, "n": _n(rng, 1, 3)}
+    # theta is a free parameter of the scheme; the closed form is documented for theta = 1 only (theory is None otherwise)
+    theta = 1 if rng.random() < 0.6 else float(rng.uniform(0.2, 1.8))
+    return {"mu": _kappa(rng) * L, "L": L, "alpha": _logu(rng, 0.05, 20.0) / L, "theta": theta, "n": _n(rng, 1, 3)}
 
 
 def gen_douglas_rachford_splitting(rng):
